@@ -24,7 +24,14 @@ Correspondence (model vs implementation, every run)
     sent to the model as RAW memory (shape, byte strides, byte offset, storage bytes) and the model does the
     reduction to logical order (`strided.obs`, `trepr.obs` kinds strided / tstrided);
   * (deepening round) STRING tensors through every representation and `ir.tensor` on text / bytes data vs
-    `IrVerif.StrTensor` (`strt.obs`, `strt.py`), legal and ill-formed.
+    `IrVerif.StrTensor` (`strt.obs`, `strt.py`), legal and ill-formed;
+  * (second deepening round) `ir.tensor(value, dtype)` on plain Python data -- None / bool / int / float / complex / str /
+    bytes scalars in nested lists and tuples, with and without `dtype=`: which tensor comes back, its dtype (inferred or
+    declared), shape and elements bit for bit -- vs `IrVerif.PyTensor` (`pyt.run`): exhaustively over all nestings up to a
+    size bound x all assignments of the seven scalar kinds, a conversion table (boundary scalars x all 27 dtypes) and
+    random regular arrays;
+  * (second deepening round) the bounds checks of `np.ndarray(shape, dtype, buffer, offset, strides)` and
+    `torch.as_strided` vs their model (`strided.check`), on random descriptions incl. out-of-bounds ones.
 
 Oracle (the property itself on the real objects, independent of the model): declared dtype and
 shape, nbytes = ceil(size*bitwidth/8), numpy() bits = the logical bits, tobytes()/tofile bytes =
@@ -43,7 +50,7 @@ import tempfile
 
 import numpy as np
 
-from harness.common import Ctx, Infra, load_corpus, pmap
+from harness.common import Ctx, Infra, Part, load_corpus, pmap
 from harness.common import lean_batch_parallel as _lean_batch_parallel
 
 
@@ -134,6 +141,16 @@ THEOREMS = [
     "IrVerif.StrTensor.C04_string_bytes_raise",
     "IrVerif.StrTensor.C04_string_agree",
     "IrVerif.StrTensor.C04_string_pytensor",
+    "IrVerif.Strided.C04_strided_npcheck",
+    "IrVerif.Strided.C04_strided_npcheck_empty_witness",
+    "IrVerif.Strided.C04_strided_agree_npcheck",
+    "IrVerif.PyTensor.C04_pytensor_declared",
+    "IrVerif.PyTensor.C04_pytensor_rowmajor",
+    "IrVerif.PyTensor.C04_pytensor_agree",
+    "IrVerif.PyTensor.C04_pytensor_float_depth",
+    "IrVerif.PyTensor.C04_pytensor_int_depth",
+    "IrVerif.PyTensor.C04_pytensor_errors",
+    "IrVerif.PyTensor.C04_pytensor_string",
 ]
 ASSUMPTIONS = [
     "elements are modelled as bit patterns; numeric meaning of floats (NaN != NaN) is not modelled",
@@ -141,7 +158,7 @@ ASSUMPTIONS = [
     "modelled, not verified; they are exercised by the correspondence on every run",
     "little-endian host (the _IS_LITTLE_ENDIAN false branches are not modelled)",
     "DIFFERENTIAL ONLY (the theorems say nothing about them; only the correspondence and the oracle check them): "
-    "ir.tensor(python numbers / nested lists) dtype inference and conversion, read-only flags of arrays, torch tensors "
+    "read-only flags of arrays, torch tensors "
     "that need .cpu()/.detach(), sign-extended vs ml_dtypes storage of 2/4-bit elements beyond 'the low bits are the element'. "
     "Modelled with content: byte order of whole-byte array memory, the storage offset of a contiguous torch view, the three "
     "delivery mechanisms of tofile, the packed bit layout (against an independent bit-stream specification), and since the "
@@ -156,8 +173,24 @@ ASSUMPTIONS = [
     "answers numpy()/tobytes() from the stale mapping and tofile() from the path) are compared model-vs-code only and counted "
     "(stale_mapping_divergence); they are outside C04's quantifier by decision of the maintainer",
     "strided memory: C04_strided_agree / C04_strided_torch assume every item lies inside the storage (`inBounds`, decidable, "
-    "evaluated by the driver on every generated array: strided_hypotheses_hold=...); that numpy / torch refuse to construct "
-    "anything else is not proved. BOOL memory bytes other than 0/1 are not generated",
+    "evaluated by the driver on every generated array: strided_hypotheses_hold=...). Second deepening round: C04_strided_npcheck "
+    "proves `inBounds` from a MODEL of the bounds check of numpy's ndarray(shape, dtype, buffer, offset, strides) constructor "
+    "(PyArray_CheckStrides, over a non-empty buffer) and of torch.as_strided; the model of the checks is compared with the "
+    "installed numpy / torch on random descriptions, about a third of them out of bounds (bounds_accepted=...), and evaluated on "
+    "every generated strided array (strided_constructor_check_holds=..., strided_nonempty_storage=...). Still a hypothesis: that "
+    "DERIVED views (transpose / slice / flip / broadcast_to of an in-bounds array) stay in bounds -- numpy's own invariant, not "
+    "modelled view operation by view operation -- and a non-empty buffer (numpy accepts out-of-bounds strides over an EMPTY buffer, "
+    "observation D383, witness theorem C04_strided_npcheck_empty_witness). BOOL memory bytes other than 0/1 are not generated",
+    "ir.tensor on plain Python data (Model/PyTensor.lean, second deepening round): values are trees of None / bool / int / float "
+    "(binary64 bit pattern) / complex / str / bytes scalars in lists and tuples; numpy's shape discovery, dtype discovery and "
+    "scalar conversion (numpy ints: must fit; ml_dtypes 2/4-bit ints: wrap; binary16/32/64 and bfloat16: round to nearest even with "
+    "the double roundings numpy / ml_dtypes perform; complex64/128) are MODELLED and compared bit for bit on every run, not verified. "
+    "Not modelled (the driver answers `unmodelled`, counted as pyt_unmodelled_conversion): conversion INTO the float8 / float4 types, "
+    "None and text scalars converted into numeric dtypes. Not generated: numpy scalars inside lists, bytearray / memoryview / range "
+    "values, NaNs with a payload, nesting deeper than numpy's limit. C04_pytensor_agree assumes well-formed scalars (64-bit patterns; "
+    "decidable, evaluated: pyt_hyp_leaves_wf=...). Observations, not findings: D381 (float default depends on the nesting depth; "
+    "theorem C04_pytensor_float_depth), D382 (None / mixed text+number / ints beyond 64 bits give a Tensor that reports STRING over an "
+    "object or fixed-width text array: compared model-vs-code only, counted as pyt_degenerate_string_tensor)",
     "string tensors: elements are byte strings; UTF-8 encoding of text is Lean's String.toUTF8, compared with Python's on every "
     "generated text; text with lone surrogates (not encodable) is not generated",
     "the model follows the repaired code for D20 D21 D22 D44 D45 D48 D49 D140 D141 D142 D143",
@@ -1917,6 +1950,80 @@ def work_strided(item: dict) -> list:
              "reqs": reqs, "dests": dests, "impl": strip(o), "fails": fails, "rt": None, "legal": legal, "hist": hist, "strided": holder}]
 
 
+# --------------------------------------------------------------------------- strided memory: the constructors' bounds checks
+
+
+def check_strided_bounds(ctx: Ctx) -> None:
+    """The hypothesis `inBounds` of the strided theorems is discharged by `C04_strided_npcheck` /
+    `C04_strided_torchcheck` from a MODEL of the bounds check numpy's `ndarray(...)` constructor and
+    `torch.as_strided` perform.  This stream ties that model to the installed numpy / torch: random descriptions
+    (shape, byte strides, offset, buffer length), about half of them out of bounds, are offered to the real
+    constructors; accepted <=> the model's check passes.  Oracle (arithmetic of this file): whatever numpy accepts
+    over a NON-EMPTY buffer keeps every item inside the buffer (numpy accepts out-of-bounds strides over an empty
+    buffer: observation D383, the reason for the `storage != []` hypothesis)."""
+    rng = ctx.rng
+    torch_ok = torch_available()
+    reqs, reals, metas = [], [], []
+    for i in range(ctx.pick(1500, 12000)):
+        isz = rng.choice([1, 1, 2, 4, 8])
+        rank = rng.choice([0, 1, 1, 2, 2, 3])
+        shape = [rng.choice([1, 2, 3, 4]) if rng.random() < 0.9 else 0 for _ in range(rank)]
+        holder = "torch" if torch_ok and rng.random() < 0.3 else "numpy"
+        strides = [rng.choice([0, 1, 2, 3, 5]) * isz if holder == "torch" else rng.choice([0, 1, 1, 2, 3, -1, -2, 5]) * isz + rng.choice([0, 0, 0, 1, -1]) for _ in shape]
+        lo = sum(min(0, (n - 1) * st) for n, st in zip(shape, strides))
+        hi = sum(max(0, (n - 1) * st) for n, st in zip(shape, strides))
+        offset = max(0, -lo + rng.choice([0, 0, isz, -isz, 1, -1, 3 * isz]))
+        need = offset + hi + isz
+        total = max(0, need + rng.choice([0, 0, 0, isz, -1, -isz, -2 * isz, 1, 4 * isz]))
+        if rng.random() < 0.06:
+            total = 0
+        if holder == "torch":
+            offset -= offset % isz
+            total -= total % isz
+        buf = bytearray(total)
+        if holder == "numpy":
+            try:
+                a = np.ndarray(shape, dtype=UINT[isz], buffer=buf, offset=offset, strides=strides)
+                accepted = True
+                del a
+            except (ValueError, TypeError):
+                accepted = False
+        else:
+            import torch
+
+            flat = torch.frombuffer(buf, dtype={1: torch.uint8, 2: torch.uint16, 4: torch.uint32, 8: torch.uint64}[isz]) if total else torch.zeros(0, dtype=torch.uint8)
+            try:
+                torch.as_strided(flat, shape, [st // isz for st in strides], offset // isz)
+                accepted = True
+            except RuntimeError:
+                accepted = False
+        empty = 0 in shape
+        inside = empty or (offset + lo >= 0 and offset + hi + isz <= total)
+        reqs.append({"m": "strided.check", "repr": {"dims": shape, "strides": strides, "offset": offset, "storage": [0] * total, "itemsize": isz, "be": False, "cplx": False}})
+        reals.append(accepted)
+        metas.append((holder, shape, strides, offset, total, isz, inside))
+    outs = lean_batch_parallel(reqs)
+    for (holder, shape, strides, offset, total, isz, inside), accepted, mo in zip(metas, reals, outs):
+        case = {"strided-bounds": True, "holder": holder, "shape": shape, "strides": strides, "offset": offset, "buffer_len": total, "itemsize": isz}
+        ctx.case(["strided-bounds", holder, shape, strides, offset, total, isz], nontrivial=True, representation="strided-bounds",
+                 bounds_holder=holder, bounds_accepted=accepted, bounds_inside=inside, bounds_empty_buffer=total == 0)
+        if "err" in mo:
+            ctx.disagree("strided bounds: model rejected the request", case, mo, None)
+            continue
+        key = "np_check" if holder == "numpy" else "torch_check"
+        if mo[key] != accepted:
+            ctx.disagree(f"strided bounds: {holder} constructor check model != implementation", case, mo[key], accepted)
+        if mo["in_bounds"] != inside:
+            ctx.disagree("strided bounds: inBounds of the model != corner arithmetic of the harness", case, mo["in_bounds"], inside)
+        if accepted and not inside:
+            if holder == "numpy" and total == 0:
+                ctx.count("bounds_numpy_accepts_oob_over_empty_buffer")  # observation D383 (numpy, not onnx_ir)
+            else:
+                ctx.fail(f"strided.bounds:{holder}:accepted-out-of-bounds", "the constructor accepted a description whose items leave the buffer", case)
+        if accepted and (total > 0 or holder == "torch") and not mo["in_bounds"]:
+            ctx.disagree("strided bounds: the driver's answer contradicts C04_strided_npcheck / C04_strided_torchcheck", case, mo, accepted)
+
+
 # --------------------------------------------------------------------------- external tensor: call histories vs the lifecycle model
 
 
@@ -2209,6 +2316,323 @@ def r0_basedir(real: list, k: int, d0: int) -> int:
     return d0 if k == 0 else real[k - 1]["basedir"]
 
 
+# --------------------------------------------------------------------------- ir.tensor on plain Python data vs Model/PyTensor.lean
+
+_F64 = {
+    "0.0": 0x0000000000000000, "-0.0": 0x8000000000000000, "1.0": 0x3FF0000000000000, "-1.5": 0xBFF8000000000000,
+    "0.5": 0x3FE0000000000000, "1.7": 0x3FFB333333333333, "-1.7": 0xBFFB333333333333, "0.1": 0x3FB999999999999A,
+    "2.5": 0x4004000000000000, "300.5": 0x4072C80000000000, "17.9": 0x4031E66666666666, "-9.0": 0xC022000000000000,
+    "1e10": 0x4202A05F20000000, "2^63": 0x43E0000000000000, "-2^63": 0xC3E0000000000000, "2^64": 0x43F0000000000000,
+    "1e19": 0x43E158E460913D00, "inf": 0x7FF0000000000000, "-inf": 0xFFF0000000000000, "nan": 0x7FF8000000000000,
+    "-nan": 0xFFF8000000000000, "min-sub": 0x0000000000000001, "max": 0x7FEFFFFFFFFFFFFF, "1e39": 0x48078287F49C4A1D,
+    # ties and near-ties of the narrower formats
+    "f32max": 0x47EFFFFFE0000000, "f32max+half": 0x47EFFFFFF0000000, "f32max+half-": 0x47EFFFFFEFFFFFFF,
+    "f32sub-min": 0x36A0000000000000, "f32sub-half": 0x3690000000000000, "f32sub-half+": 0x3690000000000001,
+    "f32sub-1.5": 0x36A8000000000000, "f32norm-min-": 0x380FFFFFFFFFFFFF, "f32 1+2^-24": 0x3FF0000010000000,
+    "f32 1+3*2^-24": 0x3FF0000030000000, "f32 1+2^-24+": 0x3FF0000010000001,
+    "f16max": 0x40EFFC0000000000, "f16 65519": 0x40EFFDE000000000, "f16 65520": 0x40EFFE0000000000,
+    "f16sub-min": 0x3E70000000000000, "f16sub-half": 0x3E60000000000000, "f16sub-half+": 0x3E60000000000001,
+    "f16 1+2^-11": 0x3FF0020000000000, "f16 1+2^-11+": 0x3FF0020000000001, "f16 1+3*2^-11": 0x3FF0060000000000,
+    "bf16 1+2^-8": 0x3FF0100000000000, "bf16 1+2^-8+2^-30": 0x3FF0100004000000, "bf16 1+3*2^-8": 0x3FF0300000000000,
+    "bf16max+": 0x47EFF00000000000, "bf16sub-half": 0x3780000000000000, "bf16sub-half+": 0x3780000000000001,
+}
+_PY_INTS = [0, 1, -1, 2, 3, 4, 7, 8, -8, -9, 15, 16, 127, 128, -128, -129, 255, 256, 257, 2049, 2051, 65504, 65519, 65520, 65535, 65536,
+            2**24 + 1, 2**24 + 3, 2**31 - 1, 2**31, -(2**31), -(2**31) - 1, 2**32 - 1, 2**32, 2**53 + 1, 2**60 + 2**36 + 1,
+            2**60 + 2**52 + 2**36 + 1, 2**63 - 1, 2**63, -(2**63), -(2**63) - 1, 2**64 - 1, 2**64, 2**100, 2**127 + 2**103,
+            2**128, 2**1023, 2**1024 - 2**970, 2**1024 - 2**970 - 1, 2**1024]
+_PY_TEXT = [{"s": "a"}, {"s": ""}, {"s": "\u00e9\u4e2d"}, {"s": "nul\x00"}, {"b": [97, 98]}, {"b": [97, 0]}, {"b": []}]
+_PY_COMPLEX = [{"c": [_F64["1.0"], _F64["2.5"]]}, {"c": [_F64["0.1"], _F64["-0.0"]]}, {"c": [_F64["0.0"], _F64["0.0"]]},
+               {"c": [_F64["nan"], _F64["0.0"]]}, {"c": [_F64["inf"], _F64["-1.5"]]}, {"c": [_F64["f32max+half"], _F64["f16 65520"]]}]
+_PY_KINDS = ["none", "bool", "int", "float", "complex", "str", "bytes"]
+
+
+def _py_leaf(rng, kind: str):
+    """One scalar (in the JSON form the model driver reads) of the given kind."""
+    if kind == "none":
+        return None
+    if kind == "bool":
+        return rng.random() < 0.5
+    if kind == "int":
+        r = rng.random()
+        return {"i": rng.choice(_PY_INTS) if r < 0.5 else rng.randrange(-20, 21) if r < 0.8 else rng.choice([1, -1]) * rng.getrandbits(rng.choice([8, 16, 31, 33, 62, 64, 70]))}
+    if kind == "float":
+        r = rng.random()
+        if r < 0.6:
+            return {"f": rng.choice(list(_F64.values()))}
+        b = rng.getrandbits(64)
+        if (b >> 52) & 0x7FF == 0x7FF and b & ((1 << 52) - 1):  # only the canonical quiet NaNs
+            b = (b & (1 << 63)) | 0x7FF8000000000000
+        return {"f": b}
+    if kind == "complex":
+        return rng.choice(_PY_COMPLEX)
+    if kind == "str":
+        return rng.choice([t for t in _PY_TEXT if "s" in t])
+    return rng.choice([t for t in _PY_TEXT if "b" in t])
+
+
+def _py_value(spec, depth=0):
+    """JSON form -> the Python object handed to ir.tensor (lists at even depth, tuples at odd depth)."""
+    if isinstance(spec, list):
+        items = [_py_value(x, depth + 1) for x in spec]
+        return tuple(items) if depth % 2 else items
+    if spec is None or isinstance(spec, bool):
+        return spec
+    if "i" in spec:
+        return spec["i"]
+    if "f" in spec:
+        return f64_of_bits(spec["f"])
+    if "c" in spec:
+        return complex(f64_of_bits(spec["c"][0]), f64_of_bits(spec["c"][1]))
+    if "s" in spec:
+        return spec["s"]
+    return bytes(spec["b"])
+
+
+def _py_shapes(max_nodes: int, max_len: int, max_depth: int) -> list:
+    """Every nesting (tree of lists with leaf slots "L") up to the bounds, inhomogeneous ones included."""
+    from functools import lru_cache
+
+    @lru_cache(None)
+    def trees(nodes: int, depth: int):
+        out = [("L", 1)] if nodes >= 1 else []
+        if depth > 0 and nodes >= 1:
+            def seqs(k, budget):  # sequences of k trees using at most budget nodes
+                if k == 0:
+                    return [((), 0)]
+                res = []
+                for t, n in trees(budget - (k - 1), depth - 1):
+                    for rest, m in seqs(k - 1, budget - n):
+                        res.append(((t,) + rest, n + m))
+                return res
+            for k in range(0, max_len + 1):
+                for items, n in seqs(k, nodes - 1) if k else [((), 0)]:
+                    out.append((items, n + 1))
+        # distinct
+        seen, res = set(), []
+        for t, n in out:
+            if t not in seen and n <= nodes:
+                seen.add(t)
+                res.append((t, n))
+        return tuple(res)
+
+    return [t for t, _n in trees(max_nodes, max_depth)]
+
+
+def _py_fill(shape, leaves: list):
+    """Replace the leaf slots of a nesting by the given scalars (consumed left to right)."""
+    if shape == "L":
+        return leaves.pop(0)
+    return [_py_fill(c, leaves) for c in shape]
+
+
+def _py_nslots(shape) -> int:
+    return 1 if shape == "L" else sum(_py_nslots(c) for c in shape)
+
+
+def _py_depth(spec) -> int:
+    return 1 + max([_py_depth(x) for x in spec], default=0) if isinstance(spec, list) else 0
+
+
+def _py_leaves(spec) -> list:
+    return [l for x in spec for l in _py_leaves(x)] if isinstance(spec, list) else [spec]
+
+
+def _py_kind(leaf) -> str:
+    if leaf is None:
+        return "none"
+    if isinstance(leaf, bool):
+        return "bool"
+    return {"i": "int", "f": "float", "c": "complex", "s": "str", "b": "bytes"}[next(iter(leaf))]
+
+
+def gen_pytensor(ctx: Ctx) -> list[dict]:
+    rng = ctx.rng
+    cases = []
+    codes = list(range(27))
+    # (1) exhaustive small scope: every nesting x every assignment of the 7 scalar kinds, without a dtype and with
+    #     two dtypes each (rotating through all 27 codes)
+    shapes = _py_shapes(ctx.pick(6, 7), 3, 3)
+    k = 0
+    for sh in shapes:
+        ns = _py_nslots(sh)
+        if ns > 3:
+            continue
+        for kinds in itertools.product(_PY_KINDS, repeat=ns):
+            spec = _py_fill(sh, [_py_leaf(rng, kd) for kd in kinds])
+            cases.append({"v": spec, "dtype": None, "fam": "exhaustive"})
+            for _ in range(2):
+                cases.append({"v": _py_fill(sh, [_py_leaf(rng, kd) for kd in kinds]), "dtype": codes[k % 27], "fam": "exhaustive"})
+                k += 1
+    # (2) the conversion table: every pool scalar x every dtype, as a scalar and inside a list
+    pool = [None, True, False] + [{"i": i} for i in _PY_INTS] + [{"f": b} for b in _F64.values()] + _PY_COMPLEX + _PY_TEXT
+    for j, leaf in enumerate(pool):
+        for c in codes:
+            cases.append({"v": leaf if (j + c) % 2 else [leaf], "dtype": c, "fam": "cast"})
+        cases.append({"v": leaf, "dtype": None, "fam": "cast"})
+        cases.append({"v": [leaf], "dtype": None, "fam": "cast"})
+        cases.append({"v": [[leaf, leaf]], "dtype": None, "fam": "cast"})
+    # (3) random regular arrays of one or two kinds (mostly convertible), larger shapes
+    for _ in range(ctx.pick(5000, 40000)):
+        dims = [rng.choice([0, 1, 2, 2, 3, 4]) for _ in range(rng.choice([0, 1, 1, 2, 2, 3]))]
+        kd = rng.choice(["bool", "int", "int", "float", "float", "complex", "str", "bytes"])
+        kd2 = rng.choice([kd, kd, kd, rng.choice(_PY_KINDS)])
+        small = rng.random() < 0.5
+
+        def leaf():
+            k_ = kd if rng.random() < 0.8 else kd2
+            if small and k_ == "int":
+                return {"i": rng.randrange(-8, 8)}
+            return _py_leaf(rng, k_)
+
+        def build(ds):
+            return leaf() if not ds else [build(ds[1:]) for _ in range(ds[0])]
+
+        spec = build(dims)
+        if rng.random() < 0.06 and isinstance(spec, list) and spec:  # make it inhomogeneous
+            spec = spec + [leaf()] if isinstance(spec[0], list) else spec + [[leaf()]]
+        r = rng.random()
+        dt = None if r < 0.4 else rng.choice([1, 2, 3, 5, 6, 7, 9, 10, 11, 12, 13, 14, 15, 16, 21, 22, 25, 26]) if r < 0.9 else rng.choice(codes)
+        cases.append({"v": spec, "dtype": dt, "fam": "random"})
+    return cases
+
+
+def _pyt_real(ir, case: dict, workdir: str) -> dict:
+    """ir.tensor(value, dtype) on the real code: outcome kind + observables."""
+    v = _py_value(case["v"])
+    dt = None if case["dtype"] is None else ir.DataType(case["dtype"])
+    try:
+        t = ir.tensor(v, dtype=dt)
+    except Exception as e:
+        return {"kind": "raised", "exc": type(e).__name__}
+    cls = type(t).__name__
+    if cls == "StringTensor":
+        return {"kind": "str", "obs": _srep_obs(t), "cls": cls}
+    if int(t.dtype) == 8:
+        return {"kind": "degenerate", "dims": [int(x) for x in t.shape.numpy()], "cls": cls, "npkind": np.asarray(t.numpy()).dtype.kind}
+    o = observe(lambda: t, [], workdir)
+    return {"kind": "numeric", "d": int(t.dtype), "dims": [int(x) for x in t.shape.numpy()], "obs": strip(o), "cls": cls}
+
+
+def _pyt_reference(ir, case: dict):
+    """The array-backed tensor of the same elements, built WITHOUT ir.tensor: numpy converts the nested value to the
+    declared numpy dtype, `ir.Tensor` wraps the array.  None when numpy itself rejects the value."""
+    if case["dtype"] is None or case["dtype"] in (0, 8):
+        return None
+    try:
+        arr = np.array(_py_value(case["v"]), dtype=spec_np(case["dtype"]))
+        t = ir.Tensor(arr, dtype=ir.DataType(case["dtype"]))
+        return {"dims": [int(x) for x in arr.shape], "bytes": list(t.tobytes()), "units": units_of(arr)}
+    except Exception:
+        return None
+
+
+def work_pytensor(chunk: list) -> list:
+    import warnings
+
+    warnings.filterwarnings("ignore")
+    np.seterr(all="ignore")
+    import onnx_ir as ir
+
+    out = []
+    with tempfile.TemporaryDirectory(prefix="c04p-") as wd:
+        for case in chunk:
+            out.append({"real": _pyt_real(ir, case, wd), "ref": _pyt_reference(ir, case)})
+    return out
+
+
+def check_pytensor(ctx: Ctx, ir, cases: list | None = None) -> None:
+    """`ir.tensor(value, dtype)` on plain Python data (None / bool / int / float / complex / str / bytes scalars in
+    nested lists and tuples) vs Model/PyTensor.lean (`pyt.run`): which tensor comes back (array-backed with the
+    inferred or declared dtype, StringTensor, the degenerate STRING Tensor, or an exception), its shape, its
+    elements bit for bit (the conversion rules of numpy / ml_dtypes), and every observable of that tensor.
+    Oracle on the real objects, independent of the model: with a dtype the tensor reports exactly that dtype and is
+    byte-identical to `ir.Tensor(np.array(value, dtype))`; integer data converts to its two's complement in row-major
+    order of the nesting (computed here); without a dtype the reported dtype is the one of the array it holds."""
+    cases = cases if cases is not None else gen_pytensor(ctx)
+    chunks = [cases[i : i + 400] for i in range(0, len(cases), 400)]
+    reals = [r for rs in pmap(work_pytensor, chunks) for r in rs]
+    outs = lean_batch_parallel([{"m": "pyt.run", "v": c["v"], "dtype": c["dtype"]} for c in cases])
+    for case, rr, mo in zip(cases, reals, outs):
+        real, ref = rr["real"], rr["ref"]
+        spec = case["v"]
+        lv = _py_leaves(spec)
+        kinds = sorted({_py_kind(l) for l in lv})
+        depth = _py_depth(spec)
+        cj = {"pytensor": True, "v": spec, "dtype": case["dtype"]}
+        dname = "None" if case["dtype"] is None else (SPEC[case["dtype"]][0] if case["dtype"] in SPEC else str(case["dtype"]))
+        ctx.case(["pytensor", spec, case["dtype"]], nontrivial=True,
+                 sample={"ir.tensor": repr(_py_value(spec))[:80], "dtype": dname},
+                 representation="ir.tensor(py)", pyt_family=case["fam"], pyt_dtype_arg=dname, pyt_outcome=real["kind"],
+                 pyt_depth=min(depth, 4), pyt_kinds="+".join(kinds) if len(kinds) <= 2 else "3+kinds", pyt_leaves=min(len(lv), 8))
+        if "err" in mo:
+            ctx.disagree("ir.tensor(py): model rejected the request", cj, mo, None)
+            continue
+        ctx.count(f"pyt_hyp_leaves_wf={mo['leaves_wf']}")
+        m = mo["r"]
+        if m["kind"] == "unmodelled":
+            ctx.count("pyt_unmodelled_conversion")
+            continue
+        if m["kind"] != real["kind"]:
+            ctx.disagree("ir.tensor(py): outcome kind model != implementation", cj, m, {k: v for k, v in real.items() if k != "obs"})
+            continue
+        if m["kind"] == "raised":
+            ctx.count(f"pyt_exc_type_match={m['exc'] == real['exc']}")
+            if m["exc"] != real["exc"] and os.environ.get("C04_DEBUG"):
+                print("EXC-TYPE", cj, m["exc"], real["exc"])
+            ctx.count(f"pyt_exc={real['exc']}")
+        elif m["kind"] == "degenerate":
+            ctx.count("pyt_degenerate_string_tensor")  # observation D382
+            if m["dims"] is not None and m["dims"] != real["dims"]:
+                ctx.disagree("ir.tensor(py): degenerate tensor shape model != implementation", cj, m["dims"], real["dims"])
+        elif m["kind"] == "str":
+            mm = _canon_srep_model(m["obs"])
+            for k in ("dtype", "shape", "numpy", "string_data", "nbytes", "tobytes", "tofile", "serialize"):
+                if mm[k] != real["obs"][k]:
+                    ctx.disagree(f"ir.tensor(py) string: {k} model != implementation", cj, mm[k], real["obs"][k])
+            want = [list(l["s"].encode("utf-8")) if "s" in l else list(l["b"]) for l in lv]
+            if real["cls"] != "StringTensor" or real["obs"]["numpy"] != want or real["obs"]["string_data"] != want or real["obs"]["tobytes"] != "raised":
+                ctx.fail("pytensor.string:not-the-elements", "ir.tensor(text/bytes) is not the StringTensor of the UTF-8 / bytes elements", cj)
+        else:
+            ctx.count(f"pyt_result_dtype={SPEC[real['d']][0]}")
+            ctx.count(f"pyt_conclusion_legal={m['legal']}")  # conclusion of C04_pytensor_agree, evaluated
+            if (m["d"], m["dims"]) != (real["d"], real["dims"]):
+                ctx.disagree("ir.tensor(py): dtype / shape model != implementation", cj, [m["d"], m["dims"]], [real["d"], real["dims"]])
+                continue
+            bw = SPEC[real["d"]][1]
+            mask = (1 << bw) - 1
+            if "_ctor" not in real["obs"] and real["obs"]["numpy"] != "raised" and [u & mask for u in real["obs"]["numpy"]] != [u & mask for u in m["elems"]]:
+                ctx.disagree("ir.tensor(py): elements model != implementation", cj, m["elems"][:8], real["obs"]["numpy"][:8])
+                continue
+            impl = dict(real["obs"])
+            mobs = dict(m["obs"])
+            if bw < 8 and impl.get("numpy") != "raised":  # the upper bits of a sub-byte element's storage byte are free
+                impl["numpy"] = [u & mask for u in impl["numpy"]]
+                mobs["numpy"] = [u & mask for u in mobs["numpy"]]
+            for obs, a, b in compare_obs([mobs], impl, [], []):
+                ctx.disagree(f"ir.tensor(py) {SPEC[real['d']][0]}{real['dims']}: {obs} model != implementation", cj, a, b)
+            # ---- oracle (independent of the model)
+            o = real["obs"]
+            if case["dtype"] is not None and real["d"] != case["dtype"]:
+                ctx.fail(f"pytensor.dtype:declared-{dname}", "ir.tensor(value, dtype=d) does not report the declared dtype", cj)
+            if o.get("_npdtype") != spec_np(real["d"]).name:
+                ctx.fail(f"pytensor.dtype:array-{SPEC[real['d']][0]}", "the reported dtype is not the dtype of the array the tensor holds", cj)
+            if o["nbytes"] != _nbytes(_prod(real["dims"]), bw) or o["tobytes"] == "raised" or len(o["tobytes"]) != o["nbytes"]:
+                ctx.fail(f"pytensor.nbytes:bw{bw}", "nbytes / tobytes length differ from ceil(size*bitwidth/8)", cj)
+            if ref is not None:
+                ctx.count("pyt_oracle_reference_compared")
+                if ref["dims"] != real["dims"] or o["tobytes"] != ref["bytes"] or [u & mask for u in o["numpy"]] != [u & mask for u in ref["units"]]:
+                    ctx.fail(f"pytensor.agree:{dname}", "ir.tensor(value, dtype) differs from the array-backed tensor of np.array(value, dtype)", cj)
+            if case["dtype"] is not None and is_int(dname) and kinds and set(kinds) <= {"int", "bool"}:
+                ints = [int(l) if isinstance(l, bool) else l["i"] for l in lv]
+                if o["tobytes"] != "raised" and o["tobytes"] != list(ref_bytes(bw, [i & mask for i in ints])):
+                    ctx.fail(f"pytensor.int-bytes:bw{bw}", "integer data is not its two's complement in row-major order of the nesting", cj)
+            if case["dtype"] is None and kinds == ["float"] and real["d"] == 11:
+                ctx.count("pyt_nested_float_is_DOUBLE")  # observation D381: a flat list of floats is FLOAT
+            if case["dtype"] is None and kinds == ["float"] and real["d"] == 1:
+                ctx.count("pyt_flat_float_is_FLOAT")
+    ctx.count("pyt_total", len(cases))
+
+
 # --------------------------------------------------------------------------- run
 
 
@@ -2268,6 +2692,8 @@ def process_records(ctx: Ctx, recs: list, outs_iter) -> None:
         if rec.get("strided"):
             so = model_obs[1]
             ctx.count(f"strided_hypotheses_hold={so.get('hyp')}")
+            ctx.count(f"strided_constructor_check_holds={so.get('torch_check') if rec['strided'] == 'torch' else so.get('np_check')}")
+            ctx.count(f"strided_nonempty_storage={so.get('nonempty_storage')}")
             key = "torch_tobytes" if rec["strided"] == "torch" else "tobytes"
             mt = so.get(key)
             mt = "raised" if isinstance(mt, dict) and "raised" in mt else mt
@@ -2305,17 +2731,65 @@ def process_records(ctx: Ctx, recs: list, outs_iter) -> None:
                     ctx.disagree(f"deserialize(serialize({name})) {dname}{item['dims']}: {obs} model != implementation", case, m, i)
 
 
+class _WorkerCtx(Part):
+    """A Part (picklable partial result) that also answers what process_records asks of a Ctx."""
+
+    prop = "C04"
+    _known: list = []  # set by the parent before the workers are forked
+
+
+def work_big(item: dict) -> dict:
+    """Worker: one LARGE logical tensor, start to finish (real objects, model driver, comparison), so that only
+    the counters travel back.  A large tensor costs about 1.5 GB in the Python process that observes it (lists of
+    millions of ints) and about 1 GB in the model driver per request; keeping that out of the parent process --
+    and running only a few of these at a time -- is what bounds the memory of the thorough tier."""
+    from harness.common import lean_batch
+
+    part = _WorkerCtx()
+    recs = work_logical(item)
+    for rec in recs:  # one request at a time: one driver process, its memory returned before the next
+        reqs = list(rec["reqs"]) + ([rec["rt"]["req"]] if rec["rt"] is not None else [])
+        outs = None
+        for attempt in range(12):
+            try:
+                outs = lean_batch(reqs)
+                break
+            except Infra:
+                if attempt == 11:
+                    raise
+                import time
+
+                time.sleep(5)
+        process_records(part, [rec], iter(outs))
+        rec.clear()
+    return dict(part)
+
+
+BIG_PROCS = 3  # large tensors observed at the same time (about 2.5 GB each, see work_big)
+SMALL_BATCH = 2500  # logical tensors per round of the parent process (bounds what it holds at once)
+
+
 def run_items(ctx: Ctx, items: list) -> None:
     for i, it in enumerate(items):
         it.setdefault("idx", i)
-    all_recs = [r for recs in pmap(work_logical, items) for r in recs]
-    reqs = []
-    for rec in all_recs:
-        reqs.extend(rec["reqs"])
-        if rec["rt"] is not None:
-            reqs.append(rec["rt"]["req"])
-    outs = lean_batch_balanced(reqs)
-    process_records(ctx, all_recs, iter(outs))
+    big = [it for it in items if it.get("big")]
+    small = [it for it in items if not it.get("big")]
+    if len(big) <= 1:  # quick tier / replay: the one large tensor runs beside the small ones
+        small, big = big + small, []
+    if big:
+        _WorkerCtx._known = ctx._known
+        for part in pmap(work_big, big, procs=BIG_PROCS):
+            ctx.merge(part)
+    for k in range(0, len(small), SMALL_BATCH):
+        all_recs = [r for recs in pmap(work_logical, small[k : k + SMALL_BATCH]) for r in recs]
+        reqs = []
+        for rec in all_recs:
+            reqs.extend(rec["reqs"])
+            if rec["rt"] is not None:
+                reqs.append(rec["rt"]["req"])
+        outs = lean_batch_balanced(reqs)
+        process_records(ctx, all_recs, iter(outs))
+        del all_recs, reqs, outs
 
 
 def run_strided(ctx: Ctx, sitems: list) -> None:
@@ -2344,17 +2818,27 @@ def run(ctx: Ctx) -> None:
     if corpus:
         run_items(ctx, [dict(c) for c in corpus])
         ctx.count("corpus_cases", len(corpus))
+    pycorpus = [c for c in allcorpus if c.get("pytensor")]
+    if pycorpus:
+        check_pytensor(ctx, ir, [{"v": c["v"], "dtype": c["dtype"], "fam": "corpus"} for c in pycorpus])
+        ctx.count("corpus_cases", len(pycorpus))
     check_tables(ctx, ir)
     check_strings(ctx, ir)
     check_strings_model(ctx, ir)
     check_external_state(ctx, ir)
     check_external_histories(ctx, ir, [c for c in allcorpus if "hist" in c])
     check_pack_functions(ctx)
+    check_pytensor(ctx, ir)
     items = gen_logical(ctx, ir) + gen_more(ctx)
     items.sort(key=lambda it: not it.get("big"))  # the large tensors first (they take longest)
     run_items(ctx, items)
     run_strided(ctx, gen_strided(ctx))
+    check_strided_bounds(ctx)
     ctx.exhaustive_scopes.append("all 2^w bit patterns of every element type with w <= 8 (BOOL: 0/1), through every representation kind")
+    ctx.exhaustive_scopes.append("ir.tensor(python data): every nesting of lists (<= 3 items per list, depth <= 3, <= 3 scalars, "
+                                 f"<= {ctx.pick(6, 7)} nodes, inhomogeneous ones included) x every assignment of the 7 scalar kinds "
+                                 "(None/bool/int/float/complex/str/bytes), without a dtype and with two dtypes each; every boundary scalar "
+                                 "of the conversion table x all 27 dtype codes")
     # edge / illegal stream: model vs implementation only
     edge = gen_edge(ctx, ir)
     chunks = [edge[i : i + 100] for i in range(0, len(edge), 100)]
@@ -2391,6 +2875,10 @@ def replay(ctx: Ctx, obj: dict) -> None:
         import onnx_ir as ir
 
         check_external_histories(ctx, ir, [case])
+    elif isinstance(case, dict) and case.get("pytensor"):
+        import onnx_ir as ir
+
+        check_pytensor(ctx, ir, [{"v": case["v"], "dtype": case["dtype"], "fam": "replay"}])
     elif isinstance(case, dict) and (case.get("string-model") or case.get("string-py")):
         import onnx_ir as ir
 
